@@ -436,7 +436,7 @@ class ModelCache:
         if isinstance(at_limit, dict):
             # the limit test of a write follows the removal of expired items: their files no longer count
             freed = sum(i.size or 0 for i in exp_removed)
-            at_limit = at_limit['vol'] - freed + at_limit['upper'] + at_limit['slack'] >= self.size_limit
+            at_limit = at_limit['vol'] - freed - at_limit.get('replaced', 0) + at_limit['upper'] + at_limit['slack'] >= self.size_limit
         if pol_removed:
             if at_limit is None or at_limit is False or self.policy == 'none':
                 violations.append({'rule': '%s/evicted-below-size-limit' % pid, 'sig': 'policy=%s' % self.policy,
